@@ -611,3 +611,72 @@ func c15ConfChange(nStable int) {
 }
 
 func VF_C15_confchange() { c15ConfChange(1) }
+
+// ---------------------------------------------------------------------------
+// VF_C15_unstable_alias: entries already handed out (Ready.Entries, the Entries of emitted MsgApps are
+// slices of the unstable log) are never rewritten by a later truncation/append of the unstable log.
+func VF_C15_unstable_alias() {
+	n := c15NewNode(1, 3, false, false)
+	l := n.r.raftLog
+	handed := l.unstableEntries() // what a Ready would carry
+	var terms []uint64
+	for _, e := range handed {
+		terms = append(terms, e.Term)
+	}
+	// a new leader's append replaces the unstable tail from some index on
+	from := uint64(2 + vfChoice("from", 3)) // first unstable index is 2
+	k := 1 + vfChoice("n", 2)
+	var ents []pb.Entry
+	for i := 0; i < k; i++ {
+		t := vfUint64("new.term")
+		vfAssume(vfAnd(t >= 1, t < c15MaxTerm))
+		ents = append(ents, pb.Entry{Index: from + uint64(i), Term: t, Data: []byte("new")})
+	}
+	l.unstable.truncateAndAppend(ents)
+	for i, e := range handed {
+		vfAssert(vfAnd(e.Term == terms[i], e.Index == uint64(2+i)), "handed-out-entries-rewritten")
+		vfAssert(len(e.Data) == 0, "handed-out-entry-data-rewritten")
+	}
+	// and the log itself is what it should be: the old prefix below `from`, then the new entries
+	for i := uint64(2); i < from; i++ {
+		vfAssert(n.termAt(i) == terms[i-2], "truncate-damaged-kept-prefix")
+	}
+	for _, e := range ents {
+		vfAssert(n.termAt(e.Index) == e.Term, "appended-entry-missing")
+	}
+	vfAssert(l.lastIndex() == from+uint64(k)-1, "tail-not-truncated")
+}
+
+// ---------------------------------------------------------------------------
+// VF_C15_campaign_pending_conf: a node with a committed but unapplied configuration change must not
+// campaign, however the unapplied backlog is laid out and whatever the message size limit is.
+func VF_C15_campaign_pending_conf() {
+	st := NewMemoryStorage()
+	st.snapshot.Metadata.ConfState = pb.ConfState{Voters: []uint64{1, 2, 3}}
+	cc := pb.ConfChange{Type: pb.ConfChangeAddNode, NodeID: 4}
+	ccData, _ := cc.Marshal()
+	nEnts := 2 + vfChoice("backlog", 2)
+	pos := vfChoice("confpos", nEnts) // where the configuration change sits in the backlog
+	for i := 0; i < nEnts; i++ {
+		e := pb.Entry{Index: uint64(i + 1), Term: 1, Data: []byte("0123456789abcdef")}
+		if i == pos {
+			e = pb.Entry{Index: uint64(i + 1), Term: 1, Type: pb.EntryConfChange, Data: ccData}
+		}
+		st.ents = append(st.ents, e)
+	}
+	st.hardState = pb.HardState{Term: 1, Commit: uint64(nEnts)}
+	limit := uint64(noLimit)
+	switch vfChoice("maxsize", 3) {
+	case 1:
+		limit = 1 // every entry is larger than the limit
+	case 2:
+		limit = 40
+	}
+	r := newRaft(&Config{ID: 1, ElectionTick: 10, HeartbeatTick: 1, Storage: st, MaxSizePerMsg: limit, MaxInflightMsgs: 256, Logger: c15Logger{}})
+	// nothing applied yet
+	n := &c15Node{r: r, st: st}
+	if n.step(pb.Message{Type: pb.MsgHup, From: 1}) {
+		return
+	}
+	vfAssert(vfAnd(r.state == StateFollower, r.Term == 1), "campaigned-with-unapplied-confchange")
+}
